@@ -655,4 +655,23 @@ theorem edgesOfEq_stmt (y : α) (rhs : List (Tok α)) (x n : Node α) :
     (x, n) ∈ edgesOfEq (.atom y :: .chunk "=" :: rhs) ↔ x ∈ nodesOf rhs ∧ n = .term y := by
   simp [edgesOfEq, splitEq_stmt, mem_pairs, nodesOf]
 
+/-! ## Terms of a rewritten tree -/
+
+mutual
+theorem Expr.terms_map (f : α → β) (g : String → String) : ∀ e : Expr α, (e.map f g).terms = e.terms.map f
+  | .num _ => rfl
+  | .atom _ => rfl
+  | .verb _ => rfl
+  | .neg e => by simp [Expr.map, Expr.terms, Expr.terms_map f g e]
+  | .not e => by simp [Expr.map, Expr.terms, Expr.terms_map f g e]
+  | .bin _ l r => by simp [Expr.map, Expr.terms, Expr.terms_map f g l, Expr.terms_map f g r]
+  | .and l r => by simp [Expr.map, Expr.terms, Expr.terms_map f g l, Expr.terms_map f g r]
+  | .or l r => by simp [Expr.map, Expr.terms, Expr.terms_map f g l, Expr.terms_map f g r]
+  | .call _ args => by simp [Expr.map, Expr.terms, Args.terms_map f g args]
+  | .ite a c b => by simp [Expr.map, Expr.terms, Expr.terms_map f g a, Expr.terms_map f g c, Expr.terms_map f g b]
+theorem Args.terms_map (f : α → β) (g : String → String) : ∀ a : Args α, (a.map f g).terms = a.terms.map f
+  | .nil => rfl
+  | .cons e rest => by simp [Args.map, Args.terms, Expr.terms_map f g e, Args.terms_map f g rest]
+end
+
 end Fsic.M4
